@@ -284,6 +284,7 @@ fn run_sync(ops: &[Value], port: u16, timeout: Duration) -> (Vec<Value>, Vec<u64
     let mut ms: Vec<u64> = vec![];
     let mut conn: Option<SmtpConnection> = None;
     let mut tr: Option<SmtpTransport> = None;
+    let mut holes: Vec<BlackHole> = vec![];
     for op in ops {
         let name = op["op"].as_str().unwrap();
         let t_op = Instant::now();
@@ -319,6 +320,16 @@ fn run_sync(ops: &[Value], port: u16, timeout: Duration) -> (Vec<Value>, Vec<u64
                 (None, _) => json!("skip"),
                 (_, Err(e)) => json!(format!("skip:{e}")),
             },
+            "connect_multi" => {
+                let hello = ClientId::Domain(s_of(&op["hello"]));
+                match multi_addrs(op, port, &mut holes) {
+                    None => json!("skip:no-black-hole"),
+                    Some(addrs) => { let t0 = Instant::now(); match SmtpConnection::connect(&addrs[..], Some(timeout), &hello, None, None) {
+                        Ok(c) => { conn = Some(c); json!(format!("ok,{}", t0.elapsed().as_millis())) }
+                        Err(e) => json!(format!("{},{}", render_err(&e).as_str().unwrap_or("err"), t0.elapsed().as_millis())),
+                    } }
+                }
+            }
             "rset" => match conn.as_mut() {
                 Some(c) => { let r = c.command(lettre::transport::smtp::commands::Rset); with_b(render(&r), c.has_broken()) }
                 None => json!("skip"),
@@ -400,13 +411,73 @@ fn run_sync(ops: &[Value], port: u16, timeout: Duration) -> (Vec<Value>, Vec<u64
     (out, ms)
 }
 
+/// A listening socket whose accept queue is full: the kernel drops every further SYN, so a connection attempt gets no answer at all
+/// (neither SYN-ACK nor RST) - a host behind a dropping firewall.  Kept alive by the returned values.
+pub struct BlackHole { pub addr: std::net::SocketAddr, _listener: std::net::TcpListener, _fillers: Vec<std::net::TcpStream> }
+extern "C" { fn listen(fd: i32, backlog: i32) -> i32; }
+pub fn black_hole() -> Option<BlackHole> {
+    use std::os::fd::AsRawFd;
+    let listener = std::net::TcpListener::bind("127.0.0.1:0").ok()?;
+    let addr = listener.local_addr().ok()?;
+    if unsafe { listen(listener.as_raw_fd(), 0) } != 0 { return None; }
+    let mut fillers = Vec::new();
+    for _ in 0..64 {
+        match std::net::TcpStream::connect_timeout(&addr, Duration::from_millis(300)) {
+            Ok(s) => fillers.push(s),
+            Err(e) if e.kind() == std::io::ErrorKind::TimedOut => return Some(BlackHole { addr, _listener: listener, _fillers: fillers }),
+            Err(_) => return None,
+        }
+    }
+    None
+}
+/// the addresses of a "connect_multi" operation: "hole" is a fresh silent listener, "server" the scripted server of the scenario
+fn multi_addrs(op: &Value, port: u16, holes: &mut Vec<BlackHole>) -> Option<Vec<std::net::SocketAddr>> {
+    let mut v = vec![];
+    for a in op["addrs"].as_array()? {
+        if a.as_str() == Some("hole") { let h = black_hole()?; v.push(h.addr); holes.push(h); } else { v.push(std::net::SocketAddr::from(([127, 0, 0, 1], port))); }
+    }
+    Some(v)
+}
+
 // ---------------------------------------------------------------- client ops (tokio)
+
+/// A stream supplied by the caller (AsyncSmtpConnection::connect_with_transport): a TCP stream that, once the DATA command has gone out,
+/// takes `k` octets of the next buffer (a short write) and answers the following write with ErrorKind::Interrupted - once; then it behaves.
+#[derive(Debug)]
+struct InterruptingStream { inner: tokio::net::TcpStream, k: usize, state: u8 }   // 0 waiting for DATA, 1 armed, 2 short write done, 3 spent
+impl tokio::io::AsyncRead for InterruptingStream {
+    fn poll_read(mut self: std::pin::Pin<&mut Self>, cx: &mut std::task::Context<'_>, buf: &mut tokio::io::ReadBuf<'_>) -> std::task::Poll<std::io::Result<()>> {
+        std::pin::Pin::new(&mut self.inner).poll_read(cx, buf)
+    }
+}
+impl tokio::io::AsyncWrite for InterruptingStream {
+    fn poll_write(mut self: std::pin::Pin<&mut Self>, cx: &mut std::task::Context<'_>, buf: &[u8]) -> std::task::Poll<std::io::Result<usize>> {
+        match self.state {
+            0 => { if buf.starts_with(b"DATA\r\n") { self.state = 1; } std::pin::Pin::new(&mut self.inner).poll_write(cx, buf) }
+            1 => {
+                if self.k == 0 { self.state = 3; return std::task::Poll::Ready(Err(std::io::Error::new(std::io::ErrorKind::Interrupted, "interrupted"))); }
+                let n = self.k.min(buf.len());
+                let r = std::pin::Pin::new(&mut self.inner).poll_write(cx, &buf[..n]);
+                if let std::task::Poll::Ready(Ok(_)) = r { self.state = 2; }
+                r
+            }
+            2 => { self.state = 3; std::task::Poll::Ready(Err(std::io::Error::new(std::io::ErrorKind::Interrupted, "interrupted"))) }
+            _ => std::pin::Pin::new(&mut self.inner).poll_write(cx, buf),
+        }
+    }
+    fn poll_flush(mut self: std::pin::Pin<&mut Self>, cx: &mut std::task::Context<'_>) -> std::task::Poll<std::io::Result<()>> { std::pin::Pin::new(&mut self.inner).poll_flush(cx) }
+    fn poll_shutdown(mut self: std::pin::Pin<&mut Self>, cx: &mut std::task::Context<'_>) -> std::task::Poll<std::io::Result<()>> { std::pin::Pin::new(&mut self.inner).poll_shutdown(cx) }
+}
+impl lettre::transport::smtp::client::AsyncTokioStream for InterruptingStream {
+    fn peer_addr(&self) -> std::io::Result<std::net::SocketAddr> { self.inner.peer_addr() }
+}
 
 async fn run_tokio(ops: &[Value], port: u16, timeout: Duration) -> (Vec<Value>, Vec<u64>) {
     let mut out = vec![];
     let mut ms: Vec<u64> = vec![];
     let mut conn: Option<AsyncSmtpConnection> = None;
     let mut tr: Option<AsyncSmtpTransport<Tokio1Executor>> = None;
+    let mut holes: Vec<BlackHole> = vec![];
     for op in ops {
         let name = op["op"].as_str().unwrap();
         let t_op = Instant::now();
@@ -420,6 +491,19 @@ async fn run_tokio(ops: &[Value], port: u16, timeout: Duration) -> (Vec<Value>, 
                         v
                     }
                     Err(e) => render_err(&e),
+                }
+            }
+            "connect_wrapped" => {
+                let hello = ClientId::Domain(s_of(&op["hello"]));
+                match tokio::net::TcpStream::connect(("127.0.0.1", port)).await {
+                    Ok(s) => {
+                        let w = InterruptingStream { inner: s, k: op["k"].as_u64().unwrap_or(0) as usize, state: if op["k"].is_null() { 3 } else { 0 } };
+                        match AsyncSmtpConnection::connect_with_transport(Box::new(w), &hello).await {
+                            Ok(c) => { let v = server_info_json(c.server_info().name(), c.server_info()); conn = Some(c); v }
+                            Err(e) => render_err(&e),
+                        }
+                    }
+                    Err(e) => json!(format!("skip:{e}")),
                 }
             }
             "send" => match (conn.as_mut(), envelope_of(op)) {
@@ -441,6 +525,16 @@ async fn run_tokio(ops: &[Value], port: u16, timeout: Duration) -> (Vec<Value>, 
                 (None, _) => json!("skip"),
                 (_, Err(e)) => json!(format!("skip:{e}")),
             },
+            "connect_multi" => {
+                let hello = ClientId::Domain(s_of(&op["hello"]));
+                match multi_addrs(op, port, &mut holes) {
+                    None => json!("skip:no-black-hole"),
+                    Some(addrs) => { let t0 = Instant::now(); match AsyncSmtpConnection::connect_tokio1(&addrs[..], Some(timeout), &hello, None, None).await {
+                        Ok(c) => { conn = Some(c); json!(format!("ok,{}", t0.elapsed().as_millis())) }
+                        Err(e) => json!(format!("{},{}", render_err(&e).as_str().unwrap_or("err"), t0.elapsed().as_millis())),
+                    } }
+                }
+            }
             "rset" => match conn.as_mut() {
                 Some(c) => { let r = c.command(lettre::transport::smtp::commands::Rset).await; with_b(render(&r), c.has_broken()) }
                 None => json!("skip"),
